@@ -96,12 +96,12 @@ def extract():
     for n in ("reason", "headerUpgrade", "valueWebsocket", "headerAccept", "valueSSE"):
         c[n] = _str_const(s, n, rel)
     serve = _func_body(s, r"func \(h \*timeoutHandler\) ServeHTTP\(", rel)
-    # the exemption test, literally
-    m = re.search(r"if r\.Header\.Get\((\w+)\) == (\w+) \|\|\s*(?://[^\n]*\n\s*)?r\.Header\.Get\((\w+)\) == (\w+) \{", serve)
-    if not m:
-        _fail("the websocket / event-stream exemption test of ServeHTTP", rel)
-    c["exempt"] = [(_str_const(s, m.group(1), rel), _str_const(s, m.group(2), rel)),
-                   (_str_const(s, m.group(3), rel), _str_const(s, m.group(4), rel))]
+    # the exemption test: the comparisons r.Header.Get(name) == value, literally, wherever they are written
+    # (in ServeHTTP or in a helper it calls), in source order
+    ms = re.findall(r"r\.Header\.Get\((\w+)\) == (\w+)", s)
+    if len(ms) != 2:
+        _fail("the two websocket / event-stream exemption comparisons r.Header.Get(..) == ..", rel)
+    c["exempt"] = [(_str_const(s, n, rel), _str_const(s, v, rel)) for n, v in ms]
     i = serve.find("case <-ctx.Done():")
     if i < 0:
         _fail("case <-ctx.Done()", rel)
